@@ -223,12 +223,22 @@ func init() {
 				return tuple{mkScalar(t, types.Int64), nilErr}
 			}
 		}
+		if asInt64(a[1]) == 10 {
+			if x, _, ok := parseDecProv(toBytes(a[0])); ok && x.Sort.W == 64 {
+				return tuple{mkScalar(x, types.Int64), nilErr}
+			}
+		}
 		return callInterp(fr, "strconv", "ParseInt", a)
 	})
 	symExt("strconv.ParseUint", func(fr *frame, a []value) value {
 		if asInt64(a[1]) == 16 {
 			if t, ok := parseHexProv(toBytes(a[0])); ok {
 				return tuple{mkScalar(t, types.Uint64), nilErr}
+			}
+		}
+		if asInt64(a[1]) == 10 {
+			if x, neg, ok := parseDecProv(toBytes(a[0])); ok && !neg && x.Sort.W == 64 {
+				return tuple{mkScalar(x, types.Uint64), nilErr}
 			}
 		}
 		return callInterp(fr, "strconv", "ParseUint", a)
@@ -257,6 +267,19 @@ func init() {
 	ext("strconv.FormatUint", func(fr *frame, a []value) value {
 		return strconv.FormatUint(uint64(asInt64(a[0])), int(asInt64(a[1])))
 	})
+
+	sortSlice := func(fr *frame, a []value) value {
+		sl, _ := a[0].(iface).v.([]value)
+		less := a[1]
+		for i := 1; i < len(sl); i++ {
+			for j := i; j > 0 && decide(call(fr.i, fr, 0, less, []value{j, j - 1})); j-- {
+				sl[j], sl[j-1] = sl[j-1], sl[j]
+			}
+		}
+		return nil
+	}
+	ext("sort.Slice", sortSlice)
+	ext("sort.SliceStable", sortSlice)
 
 	// ---- regexp ----
 	ext("regexp.MustCompile", func(fr *frame, a []value) value { return compileRe(argString(a[0])) })
